@@ -7,12 +7,17 @@ RULE = ("a case is a stack program `<ring> tok ...` (ring in Z, Q, F5) evaluated
         "cases = (1) every kind of operation drawn at random on operands of every shape of a list containing (0,0),(0,n),"
         "(m,0),(1,1)..(8,8) (thorough: all shapes <= 8x8) over the three rings, operands built through "
         "from_col_vecs/from_sorted_entries with explicit zeros, from_entries with duplicates and cancelling pairs, a - a, "
-        "dense conversion; (2) a fixed list of operations at boundary parameters for every shape; (3) random programs of "
+        "dense conversion; (2) a fixed list of operations at boundary parameters for every shape (incl. every divide4 "
+        "corner followed by combine_blocks, permutation matrices with both sides of row_perm(p)*a == a.permute_rows(p) and "
+        "a*col_perm(q) == a.permute_cols(q)); (3) random programs of "
         "1-5 chained operations; (4) random transform histories (<= 8 operations among append, append_perm, merge, reduce, "
         "sub) observed through forward/backward on random vectors and forward_mat/backward_mat, before and after reduce; "
         "(5) a malformed stream. About one parameter in ten is out of range on purpose. Every call form of an operator "
         "(value/reference/assigning) is evaluated and the forms must agree. A case is non-trivial when it does not panic "
-        "and its result has at least one stored entry or a non-empty dense rendering; distinct = distinct case lines")
+        "and its result has at least one stored entry or a non-empty dense rendering; distinct = distinct case lines. "
+        "coverage.op_counts / op_panics give, per operation token, how often it was executed in this run and how often it "
+        "was the panicking token; coverage.zero_dim_results counts cases whose rendered result contains a matrix with a "
+        "zero dimension, coverage.stored_zero_results those with an explicitly stored zero")
 ASSUME = ["nalgebra (DMatrix), nalgebra-sparse (COO->CSC assembly, CSC + - * neg transpose, dense<->CSC) and sprs::Perm "
           "are modelled by their mathematical definition, not verified; the run observes that they behave so",
           "scalar types: exactness of i64 / Ratio<i64> / FF<5> is C14's subject; entries stay far below the i64 range",
@@ -48,6 +53,46 @@ def probe_is_id(ctx, corr):
     return None
 
 
+OPS = set(("dup swap over drop p pid pfi csc fe fdd zero id fcv frp fcp ofd tr neg add sub mul perm permr permc sm smr "
+           "smc exmod div4 comb concat stack extc tod colv vfe vfse vzero vunit vfv vmat vperm vsub vstack vsplit vstackn "
+           "vneg vadd vsubt mulv dfd dzero did ddiag dsm dsmr dsmc dswr dswc dmr dmc dart dact dle dre dneg dadd dsubt "
+           "dmul tid tnew tapp tappp tmerge tred tsub tfwd tbwd tfm tbm").split())
+
+
+def distribution(ctx):
+    """operation mix / panic positions / zero-dimension and stored-zero results of the recorded run"""
+    import os
+    import re
+    out = os.path.join(ctx.work, "corr")
+    try:
+        cases = open(os.path.join(out, "cases.txt")).read().splitlines()
+        impl = open(os.path.join(out, "impl.txt")).read().splitlines()
+    except OSError:
+        return {}
+    cnt, pan = {}, {}
+    zero_dim = stored_zero = panics = 0
+    zd = re.compile(r"\b[MD] (0 \d+|\d+ 0) |\bV 0 ")
+    sz = re.compile(r"\[(?:[^\]]*,)?\d+ (?:\d+ )?0(?:/1)?(?:,[^\]]*)?\]")
+    for c, a in zip(cases, impl):
+        t = c.split()[1:]
+        for x in t:
+            if x in OPS:
+                cnt[x] = cnt.get(x, 0) + 1
+        m = re.match(r"P@(\d+)", a)
+        if m:
+            panics += 1
+            k = int(m.group(1))
+            if k < len(t):
+                pan[t[k]] = pan.get(t[k], 0) + 1
+            continue
+        if zd.search(a):
+            zero_dim += 1
+        if any(sz.search(part.split("] [")[0] + "]") for part in a.split(" | ") if part[:1] in "MV"):
+            stored_zero += 1
+    return {"op_counts": dict(sorted(cnt.items())), "op_panics": dict(sorted(pan.items())), "panicking_cases": panics,
+            "zero_dim_results": zero_dim, "stored_zero_results": stored_zero}
+
+
 def run(ctx):
     obl = C.coq_obligations(ctx.pid, ["Extract/ExtractC13.vo"])
     extra = {}
@@ -55,6 +100,8 @@ def run(ctx):
         extra.update(C.coqchk(ctx.pid))
     corr = C.correspondence(ctx, "c13", nontrivial)
     extra_viol = []
+    if corr.get("ok"):
+        extra.update(distribution(ctx))
     pr = probe_is_id(ctx, corr)
     if pr is not None:
         extra["adjacent_findings"] = [{"key": IS_ID_KEY, "probe": pr,
